@@ -1,6 +1,298 @@
-(* ReduceFacts.v — lemmas about the mirror model of Reduce.v (property C11). *)
+(* ReduceFacts.v — lemmas about the mirror model of Reduce.v (property C11).
+
+   Part 1  heap positions in coordinates (height j, offset u) and the recursive
+           characterisation of resolve_aggregate;
+   Part 2  leaf-to-root paths;
+   Part 3  what an aggregate is worth: the fold over its live leaves;
+   Part 4  the structural and evaluation passes as index-wise updates;
+   Part 5  the reconciliation of the dense leaf maps against a coherent delta;
+   Part 6  the invariant of a cycle and the theorems of C11. *)
 Require Import Base Reduce.
-From Coq Require Import PeanoNat ZifyBool.
+From Coq Require Import PeanoNat Lia List Bool.
 Local Open Scope nat_scope.
 
-Lemma placeholder_true : True. Proof. exact I. Qed.
+(* ================================================================== *)
+(* Part 1: positions                                                   *)
+
+Lemma pow2_pos n : 1 <= 2 ^ n.
+Proof. induction n; simpl; lia. Qed.
+
+Lemma pow2_S n : 2 ^ S n = 2 * 2 ^ n.
+Proof. reflexivity. Qed.
+
+Lemma pow2_ge2 n : 1 <= n -> 2 <= 2 ^ n.
+Proof. destruct n; [lia|]. intros _. rewrite pow2_S. pose proof (pow2_pos n). lia. Qed.
+
+Lemma pow2_lt_lin n : n < 2 ^ n.
+Proof. induction n; simpl; lia. Qed.
+
+Lemma pow2_half j : 1 <= j -> 2 ^ j = 2 * 2 ^ (j - 1).
+Proof. destruct j; [lia|]. intros _. replace (S j - 1) with j by lia. reflexivity. Qed.
+
+Lemma pow2_div2 j : 1 <= j -> 2 ^ j / 2 = 2 ^ (j - 1).
+Proof. intros H. rewrite (pow2_half j H). rewrite Nat.mul_comm. apply Nat.div_mul. lia. Qed.
+
+Lemma pow2_split k j : j <= k -> 2 ^ k = 2 ^ j * 2 ^ (k - j).
+Proof. intros H. rewrite <- Nat.pow_add_r. f_equal. lia. Qed.
+
+Lemma pow2_div k j : j <= k -> 2 ^ k / 2 ^ (k - j) = 2 ^ j.
+Proof.
+  intros H. rewrite (pow2_split k j H). apply Nat.div_mul.
+  pose proof (pow2_pos (k - j)). lia.
+Qed.
+
+(* the heap position of the node of height j (its subtree spans 2^j leaves) and
+   offset u within its level, in a tree of capacity 2^k *)
+Definition pos (k j u : nat) : nat := 2 ^ (k - j) - 1 + u.
+
+Lemma pos_left k j u : 1 <= j -> j <= k -> 2 * pos k j u + 1 = pos k (j - 1) (2 * u).
+Proof.
+  intros H1 H2. unfold pos. replace (k - (j - 1)) with (S (k - j)) by lia.
+  rewrite pow2_S. pose proof (pow2_pos (k - j)). lia.
+Qed.
+
+Lemma pos_right k j u : 1 <= j -> j <= k -> 2 * pos k j u + 2 = pos k (j - 1) (2 * u + 1).
+Proof.
+  intros H1 H2. unfold pos. replace (k - (j - 1)) with (S (k - j)) by lia.
+  rewrite pow2_S. pose proof (pow2_pos (k - j)). lia.
+Qed.
+
+Lemma pos_log2 k j u : u < 2 ^ (k - j) -> Nat.log2 (pos k j u + 1) = k - j.
+Proof.
+  intros H. apply Nat.log2_unique; [lia|]. unfold pos. rewrite pow2_S.
+  pose proof (pow2_pos (k - j)). lia.
+Qed.
+
+Lemma internals_pow2 k : internals (2 ^ k) = 2 ^ k - 1.
+Proof.
+  unfold internals. destruct (1 <? 2 ^ k) eqn:E; [reflexivity|].
+  apply Nat.ltb_ge in E. pose proof (pow2_pos k). lia.
+Qed.
+
+Lemma pos_internal k j u : 1 <= j -> j <= k -> u < 2 ^ (k - j) -> pos k j u < internals (2 ^ k).
+Proof.
+  intros H1 H2 H3. rewrite internals_pow2. unfold pos.
+  rewrite (pow2_split k j H2). pose proof (pow2_ge2 j H1). pose proof (pow2_pos (k - j)). nia.
+Qed.
+
+Lemma pos_leaf k u : pos k 0 u = internals (2 ^ k) + u.
+Proof. rewrite internals_pow2. unfold pos. rewrite Nat.sub_0_r. reflexivity. Qed.
+
+(* every internal position has coordinates *)
+Lemma pos_coords k p : p < internals (2 ^ k) ->
+  exists j u, 1 <= j /\ j <= k /\ u < 2 ^ (k - j) /\ p = pos k j u.
+Proof.
+  intros H. rewrite internals_pow2 in H.
+  pose proof (Nat.log2_spec (p + 1) ltac:(lia)) as [L1 L2].
+  set (d := Nat.log2 (p + 1)) in *.
+  assert (Hd : d < k).
+  { destruct (Nat.lt_ge_cases d k) as [|G]; [assumption|].
+    pose proof (Nat.pow_le_mono_r 2 k d ltac:(lia) G). lia. }
+  exists (k - d), (p + 1 - 2 ^ d). replace (k - (k - d)) with d by lia.
+  repeat split; try lia.
+  - rewrite pow2_S in L2. lia.
+  - unfold pos. replace (k - (k - d)) with d by lia. pose proof (pow2_pos d). lia.
+Qed.
+
+(* ---- the descent loop ---- *)
+Lemma descend_fuel : forall j f1 f2 p lis, j <= f1 -> j <= f2 -> 2 <= lis -> lis <= 2 ^ j ->
+  descend f1 p (2 ^ j) lis = descend f2 p (2 ^ j) lis.
+Proof.
+  induction j as [|j IH]; intros f1 f2 p lis H1 H2 H3 H4.
+  - simpl in H4. lia.
+  - destruct f1 as [|f1]; [lia|]. destruct f2 as [|f2]; [lia|].
+    cbn [descend]. rewrite (pow2_div2 (S j)) by lia. replace (S j - 1) with j by lia.
+    destruct (lis <=? 2 ^ j) eqn:E; [|reflexivity].
+    apply Nat.leb_le in E. apply IH; lia.
+Qed.
+
+Lemma descend_step j f p lis : 1 <= j -> j <= f -> 2 <= lis -> lis <= 2 ^ j ->
+  descend f p (2 ^ j) lis = if lis <=? 2 ^ (j - 1) then descend f (2 * p + 1) (2 ^ (j - 1)) lis else p.
+Proof.
+  intros H1 H2 H3 H4. destruct f as [|f]; [lia|].
+  change (descend (S f) p (2 ^ j) lis)
+    with (if lis <=? 2 ^ j / 2 then descend f (2 * p + 1) (2 ^ j / 2) lis else p).
+  rewrite (pow2_div2 j H1).
+  destruct (lis <=? 2 ^ (j - 1)) eqn:E; [|reflexivity].
+  apply Nat.leb_le in E. apply descend_fuel with (j := j - 1); lia.
+Qed.
+
+(* resolve_aggregate with the bit arithmetic evaluated *)
+Lemma resolve_unfold k j u live : 1 <= j -> j <= k -> u < 2 ^ (k - j) ->
+  resolve (2 ^ k) live (pos k j u) =
+    if live <=? u * 2 ^ j then AEmpty
+    else let lis := Nat.min (2 ^ j) (live - u * 2 ^ j) in
+         if lis =? 1 then ALeaf (u * 2 ^ j) else ANode (descend (2 ^ k) (pos k j u) (2 ^ j) lis).
+Proof.
+  intros H1 H2 H3. unfold resolve.
+  pose proof (pos_internal k j u H1 H2 H3) as Hi.
+  destruct (internals (2 ^ k) <=? pos k j u) eqn:E; [apply Nat.leb_le in E; lia|].
+  rewrite (pos_log2 k j u H3). rewrite (pow2_div k j H2).
+  replace (pos k j u + 1 - 2 ^ (k - j)) with u by (unfold pos; pose proof (pow2_pos (k - j)); lia).
+  reflexivity.
+Qed.
+
+Lemma resolve_leaf_level k u live : u < 2 ^ k ->
+  resolve (2 ^ k) live (pos k 0 u) = if u <? live then ALeaf u else AEmpty.
+Proof.
+  intros H. unfold resolve. rewrite pos_leaf.
+  destruct (internals (2 ^ k) <=? internals (2 ^ k) + u) eqn:E; [|apply Nat.leb_gt in E; lia].
+  replace (internals (2 ^ k) + u - internals (2 ^ k)) with u by lia. reflexivity.
+Qed.
+
+(* The recursive reading of resolve_aggregate: empty / one leaf / the alias of
+   the left child when the right half is empty / this combine point. *)
+Lemma resolve_rec k j u live : 1 <= j -> j <= k -> u < 2 ^ (k - j) ->
+  resolve (2 ^ k) live (pos k j u) =
+    if live <=? u * 2 ^ j then AEmpty
+    else if live =? u * 2 ^ j + 1 then ALeaf (u * 2 ^ j)
+    else if live <=? u * 2 ^ j + 2 ^ (j - 1) then resolve (2 ^ k) live (pos k (j - 1) (2 * u))
+    else ANode (pos k j u).
+Proof.
+  intros H1 H2 H3. rewrite (resolve_unfold k j u live H1 H2 H3).
+  set (a := u * 2 ^ j).
+  destruct (live <=? a) eqn:E1; [reflexivity|]. apply Nat.leb_gt in E1.
+  pose proof (pow2_ge2 j H1) as Hj2. pose proof (pow2_half j H1) as Hh.
+  cbv zeta.
+  destruct (live =? a + 1) eqn:E2.
+  - apply Nat.eqb_eq in E2. replace (Nat.min (2 ^ j) (live - a)) with 1 by lia. reflexivity.
+  - apply Nat.eqb_neq in E2.
+    destruct (Nat.min (2 ^ j) (live - a) =? 1) eqn:E3; [apply Nat.eqb_eq in E3; lia|].
+    rewrite descend_step; try lia.
+    2:{ pose proof (pow2_lt_lin k). lia. }
+    destruct (live <=? a + 2 ^ (j - 1)) eqn:E4.
+    + apply Nat.leb_le in E4.
+      assert (Hm : Nat.min (2 ^ j) (live - a) = live - a) by lia. rewrite Hm.
+      destruct (live - a <=? 2 ^ (j - 1)) eqn:E5; [|apply Nat.leb_gt in E5; lia].
+      (* the left child is itself internal, since it holds at least two leaves *)
+      assert (Hj1 : 2 <= j).
+      { destruct j as [|[|j]]; try lia. simpl in *. lia. }
+      rewrite pos_left by lia.
+      assert (Hu : 2 * u < 2 ^ (k - (j - 1))).
+      { replace (k - (j - 1)) with (S (k - j)) by lia. rewrite pow2_S. lia. }
+      rewrite (resolve_unfold k (j - 1) (2 * u) live) by lia.
+      assert (Ha : 2 * u * 2 ^ (j - 1) = a) by (unfold a; rewrite Hh; lia).
+      rewrite Ha.
+      destruct (live <=? a) eqn:E6; [apply Nat.leb_le in E6; lia|].
+      cbv zeta.
+      assert (Hm' : Nat.min (2 ^ (j - 1)) (live - a) = live - a) by lia. rewrite Hm'.
+      destruct (live - a =? 1) eqn:E7; [apply Nat.eqb_eq in E7; lia|].
+      reflexivity.
+    + apply Nat.leb_gt in E4.
+      destruct (Nat.min (2 ^ j) (live - a) <=? 2 ^ (j - 1)) eqn:E5; [apply Nat.leb_le in E5; lia|].
+      reflexivity.
+Qed.
+
+(* an aggregate is empty exactly when its interval starts beyond the live prefix *)
+Lemma resolve_empty_iff : forall j k u live, j <= k -> u < 2 ^ (k - j) ->
+  (resolve (2 ^ k) live (pos k j u) = AEmpty <-> live <= u * 2 ^ j).
+Proof.
+  induction j as [|j IH]; intros k u live H2 H3.
+  - rewrite Nat.sub_0_r in H3. rewrite (resolve_leaf_level k u live H3). simpl. rewrite Nat.mul_1_r.
+    destruct (u <? live) eqn:E; [apply Nat.ltb_lt in E|apply Nat.ltb_ge in E]; split; intros; try lia; try discriminate; auto.
+  - rewrite (resolve_rec k (S j) u live) by lia.
+    replace (S j - 1) with j by lia.
+    destruct (live <=? u * 2 ^ S j) eqn:E1.
+    { apply Nat.leb_le in E1. tauto. }
+    apply Nat.leb_gt in E1.
+    destruct (live =? u * 2 ^ S j + 1) eqn:E2.
+    { split; [discriminate|lia]. }
+    destruct (live <=? u * 2 ^ S j + 2 ^ j) eqn:E3.
+    + assert (Hu : 2 * u < 2 ^ (k - j)).
+      { replace (k - j) with (S (k - S j)) by lia. rewrite pow2_S. lia. }
+      rewrite (IH k (2 * u) live ltac:(lia) Hu). rewrite pow2_S. lia.
+    + split; [discriminate|lia].
+Qed.
+
+(* ================================================================== *)
+(* Part 2: leaf-to-root paths                                          *)
+
+Lemma pos_inj k j u j' u' : j <= k -> j' <= k -> u < 2 ^ (k - j) -> u' < 2 ^ (k - j') ->
+  pos k j u = pos k j' u' -> j = j' /\ u = u'.
+Proof.
+  intros H1 H2 H3 H4 E.
+  pose proof (pos_log2 k j u H3) as L1. pose proof (pos_log2 k j' u' H4) as L2.
+  rewrite E in L1. assert (j = j') by lia. subst j'. split; [reflexivity|].
+  unfold pos in E. lia.
+Qed.
+
+Lemma pos_parent k j u : j < k -> u < 2 ^ (k - j) ->
+  pos k j u <> 0 /\ (pos k j u - 1) / 2 = pos k (S j) (u / 2).
+Proof.
+  intros H1 H2. unfold pos.
+  replace (k - j) with (S (k - S j)) in * by lia. rewrite pow2_S in *.
+  pose proof (pow2_pos (k - S j)) as Hp. split; [lia|].
+  replace (2 * 2 ^ (k - S j) - 1 + u - 1) with ((2 ^ (k - S j) - 1) * 2 + u) by lia.
+  rewrite Nat.div_add_l by lia. reflexivity.
+Qed.
+
+Lemma in_path_up : forall d k j u fuel q, j <= k -> k - j = d -> u < 2 ^ (k - j) -> d < fuel ->
+  (In q (path_up fuel (pos k j u) (internals (2 ^ k))) <->
+   exists t, 1 <= t /\ t <= k - j /\ q = pos k (j + t) (u / 2 ^ t)).
+Proof.
+  induction d as [|d IH]; intros k j u fuel q H1 H2 H3 H4.
+  - assert (j = k) by lia. subst j. rewrite Nat.sub_diag in *. simpl in H3.
+    assert (u = 0) by lia. subst u. unfold pos. rewrite Nat.sub_diag. simpl.
+    destruct fuel; simpl; split; try tauto; intros [t Ht]; lia.
+  - destruct fuel as [|fuel]; [lia|].
+    cbn [path_up]. destruct (pos k j u) eqn:Ep.
+    { destruct (pos_parent k j u ltac:(lia) H3) as [Hnz _]. lia. }
+    rewrite <- Ep. destruct (pos_parent k j u ltac:(lia) H3) as [Hnz Hpar]. rewrite Hpar.
+    assert (Hu2 : u / 2 < 2 ^ (k - S j)).
+    { apply Nat.div_lt_upper_bound; [lia|]. replace (k - j) with (S (k - S j)) in H3 by lia.
+      rewrite pow2_S in H3. lia. }
+    assert (Hint : pos k (S j) (u / 2) < internals (2 ^ k)) by (apply pos_internal; lia).
+    destruct (pos k (S j) (u / 2) <? internals (2 ^ k)) eqn:E; [|apply Nat.ltb_ge in E; lia].
+    cbn [app In].
+    rewrite (IH k (S j) (u / 2) fuel q) by lia.
+    split.
+    + intros [Hq|[t [Ht1 [Ht2 Hq]]]].
+      * exists 1. repeat split; try lia. subst q.
+        replace (j + 1) with (S j) by lia. replace (2 ^ 1) with 2 by reflexivity. reflexivity.
+      * exists (S t). repeat split; try lia. subst q.
+        replace (j + S t) with (S j + t) by lia.
+        rewrite Nat.div_div by (pose proof (pow2_pos t); lia). rewrite pow2_S. reflexivity.
+    + intros [t [Ht1 [Ht2 Hq]]].
+      destruct t as [|[|t]]; [lia| |].
+      * left. subst q.
+        replace (j + 1) with (S j) by lia. replace (2 ^ 1) with 2 by reflexivity. reflexivity.
+      * right. exists (S t). repeat split; try lia. subst q.
+        replace (j + S (S t)) with (S j + S t) by lia.
+        rewrite Nat.div_div by (pose proof (pow2_pos (S t)); lia).
+        rewrite (pow2_S (S t)). reflexivity.
+Qed.
+
+Lemma div_interval i b u : 0 < b -> (i / b = u <-> u * b <= i /\ i < (u + 1) * b).
+Proof.
+  intros Hb. split.
+  - intros <-. pose proof (Nat.mul_div_le i b ltac:(lia)). pose proof (Nat.mul_succ_div_gt i b ltac:(lia)). lia.
+  - intros [H1 H2]. symmetry. apply (Nat.div_unique i b u (i - u * b)); lia.
+Qed.
+
+(* the path of leaf i holds exactly the combine points whose interval contains i *)
+Lemma leaf_path_iff k i j u : i < 2 ^ k -> 1 <= j -> j <= k -> u < 2 ^ (k - j) ->
+  (In (pos k j u) (leaf_path (2 ^ k) (internals (2 ^ k)) i) <-> u * 2 ^ j <= i /\ i < (u + 1) * 2 ^ j).
+Proof.
+  intros Hi H1 H2 H3. unfold leaf_path. rewrite <- pos_leaf.
+  rewrite (in_path_up k k 0 i) ; try lia.
+  2:{ rewrite Nat.sub_0_r. exact Hi. }
+  2:{ rewrite pos_leaf, internals_pow2. pose proof (pow2_lt_lin k). lia. }
+  split.
+  - intros [t [Ht1 [Ht2 E]]]. simpl in E.
+    assert (Ht3 : i / 2 ^ t < 2 ^ (k - t)).
+    { apply Nat.div_lt_upper_bound; [pose proof (pow2_pos t); lia|]. rewrite <- pow2_split by lia. exact Hi. }
+    apply pos_inj in E; try lia. destruct E as [-> ->].
+    apply div_interval; [pose proof (pow2_pos t); lia|reflexivity].
+  - intros Hint. exists j. repeat split; try lia. simpl. f_equal. symmetry.
+    apply div_interval; [pose proof (pow2_pos j); lia|exact Hint].
+Qed.
+
+Lemma leaf_path_internal k i q : i < 2 ^ k -> In q (leaf_path (2 ^ k) (internals (2 ^ k)) i) -> q < internals (2 ^ k).
+Proof.
+  intros Hi. unfold leaf_path. rewrite <- pos_leaf.
+  rewrite (in_path_up k k 0 i); try lia.
+  2:{ rewrite Nat.sub_0_r. exact Hi. }
+  2:{ rewrite pos_leaf, internals_pow2. pose proof (pow2_lt_lin k). lia. }
+  intros [t [Ht1 [Ht2 E]]]. subst q. simpl. apply pos_internal; try lia.
+  apply Nat.div_lt_upper_bound; [pose proof (pow2_pos t); lia|]. rewrite <- pow2_split by lia. exact Hi.
+Qed.
